@@ -260,6 +260,32 @@ example : OptionText.simplify 5 9 [] (.msg "field" [.msg "string" [.scalar "min_
     (["string", "min_len"], .scalar "min_len" "1") := by
   simp [OptionText.simplify]
 
+/-- The token sequence the printer writes for an option value (message literal `{ k: v … }`, list
+`[ v, … ]`, scalars) is read back by a parser of that grammar as the same tree — for every tree
+`WalkOptionField` can produce (no list directly inside a list), of any size and depth. List
+elements and the root come back without their (redundant) key: `norm`. -/
+theorem C05_option_inv (v : OptionText.Opt) (hw : OptionText.wf v = true) :
+    OptionText.pValue (OptionText.sz v) (OptionText.valueToks v) = some (OptionText.norm v) := by
+  cases v with
+  | scalar k s => rfl
+  | msg k kids =>
+    simp only [OptionText.wf] at hw
+    simp only [OptionText.valueToks, OptionText.sz, OptionText.norm, List.cons_append, OptionText.pValue]
+    rw [OptionText.pFields_msgToks kids hw [.rbrace] _ (OptionText.stops_rbrace _) (Nat.le_refl _)]
+  | arr k kids =>
+    simp only [OptionText.wf] at hw
+    simp only [OptionText.valueToks, OptionText.sz, OptionText.norm, List.cons_append, OptionText.pValue]
+    rw [OptionText.pElems_arrToks kids hw [] _ (Nat.le_refl _)]
+
+/-- the value literal does not depend on the keys the text cannot carry -/
+example : OptionText.valueToks (.arr "additional_bindings" [.msg "additional_bindings" [.scalar "post" "\"/a\""]]) =
+    [.lbrack, .lbrace, .ident "post", .colon, .scalar "\"/a\"", .rbrace, .rbrack] := by
+  simp [OptionText.valueToks, OptionText.arrToks, OptionText.msgToks]
+
+example : OptionText.wf (.msg "http" [.scalar "post" "\"/a\"", .scalar "body" "\"*\"",
+    .arr "additional_bindings" [.msg "additional_bindings" [.scalar "post" "\"/b\""], .msg "additional_bindings" []]]) = true := by
+  simp [OptionText.wf, OptionText.wfKids, OptionText.wfElems]
+
 /-! ## 5. the whole file, as far as the kernels carry it -/
 
 /-- one occurrence of a type reference (field type, map value type, method request / response) -/
